@@ -303,6 +303,7 @@ class Translator:
                 L.append(f'  VP_CHECK(vp_all_done || ({can}), "deadlock: unfinished threads exist and none of them can move");')
         if q.get('final'):
             L.append(f"  if (vp_all_done) {{ {G.fname('@' + q['final'])}(); }}")
+        L.append('  VP_CHECK(vp_nd_acc != 0x5a17c3e1u || vp_nd_last != 0x7e57, "bookkeeping (keeps nondeterministic draws in the trace)");')
         L.append("#ifdef VP_WITNESS")
         cov = q.get('cover', 0)
         L.append("#ifdef VP_MUST_COVER")
